@@ -25,6 +25,7 @@ other cache class, and compares the .index file read back through the real reade
 predicted layout."""
 import json
 import os
+import re
 from concurrent.futures import ThreadPoolExecutor
 
 import vlib
@@ -75,7 +76,8 @@ def run(ctx):
         elif what == "crash":
             sig = "c03:crash:%s" % m.get("form")
         else:
-            sig = "c03:%s:%s:%s" % (m.get("form"), m.get("path"), what.split(":")[0][:30])
+            kind = re.split(r"[ :\[]", what.strip(), 1)[0][:24]       # ids / total / histogram / agg / fetch / panic / ...
+            sig = "c03:%s:%s:%s" % (m.get("form"), m.get("path"), kind)
         ctx.violation(sig, m, what="shape %s, form %s via %s: %s" % (m.get("i"), m.get("form"), m.get("path"), what[:300]))
     nshape = nprobe = 0
     with open(cf) as fh:
